@@ -564,6 +564,13 @@ func sweep(args []string) *Result {
 		if len(res.Samples) < 3 && accepted%97 == 3 {
 			res.sample(map[string]any{"project": s.name, "accepted": true})
 		}
+		if checks["c05"] {
+			if b, es := wrapBytes(j.ToJson); es == "" {
+				if bad := checkC05(b); len(bad) > 0 {
+					res.mismatch("c05:"+short(bad[0]), s.name+": cross-reference invariant broken: "+strings.Join(bad, "; "), replay)
+				}
+			}
+		}
 		if checks["c04"] {
 			probeSrc = &s
 			if sig, what := checkC04(&j); sig != "" {
